@@ -368,6 +368,14 @@ func (r *Run) execute() int {
 }
 
 func (r *Run) kindCounts(o *Obligation, sweep bool) bool {
+	if len(r.prop.Kinds) > 0 {
+		for _, k := range r.prop.Kinds {
+			if k == o.Kind {
+				return true
+			}
+		}
+		return false
+	}
 	if sweep {
 		switch o.Kind {
 		case "safety", "variant", "pre", "typeframe":
